@@ -87,6 +87,18 @@ Theorem C20_stream_cursor_safe :
 Proof. exact stream_safe_proof. Qed.
 Print Assumptions C20_stream_cursor_safe.
 
+(* (b') the same for ThreadedBufferedStream (shard's outputs), producer side: additionally every block
+        handed to the writer thread, including the final one from the destructor, is non-empty
+        (an empty block is the poison that stops the writer, so none may be handed over early)
+        and at most one block long; nothing is lost or reordered *)
+Theorem C20_threaded_stream_safe :
+  forall cap kmax ops, 1 <= kmax <= cap -> Forall (sop_ok kmax) ops ->
+  forall buf, zlen buf <= cap ->
+  exists b w, t_run cap buf ops = TOk b w /\ zlen b <= cap /\ concat w ++ b = buf ++ flat_map sop_bytes ops /\
+              Forall (block_ok cap) (w ++ t_destroy b) /\ concat (w ++ t_destroy b) = buf ++ flat_map sop_bytes ops.
+Proof. exact t_stream_safe_proof. Qed.
+Print Assumptions C20_threaded_stream_safe.
+
 (* ... and the constants in the headers satisfy the premises: every reservation <= kToStringMaxBytes
    <= the buffer size of BufferedStream and the block size of ThreadedBufferedStream *)
 Theorem C20_reservations_within_buffers :
@@ -126,6 +138,14 @@ Example C20_nonvacuous_float_23 :
 Proof. vm_compute. split; reflexivity. Qed.
 
 (* integers: the vector store of a 13-digit value touches 16 bytes; extreme values *)
+(* a write of 20000 bytes into a block holding 8000: blocks 8192, 8192, then 3616 from the destructor *)
+Example C20_nonvacuous_threaded :
+  match t_run 8192 (repeat 120 (Z.to_nat 8000)) [SWrite (repeat 121 (Z.to_nat 12000))] with
+  | TOk b w => map (@length Z) (w ++ t_destroy b) = [Z.to_nat 8192; Z.to_nat 8192; Z.to_nat 3616]
+  | _ => False
+  end.
+Proof. vm_compute. reflexivity. Qed.
+
 Example C20_nonvacuous_dec :
   dec 0 = [48] /\ dec 1234567890123 = [49;50;51;52;53;54;55;56;57;48;49;50;51] /\
   dec_signed (-9223372036854775808) = [45;57;50;50;51;51;55;50;48;51;54;56;53;52;55;55;53;56;48;56].
